@@ -647,7 +647,7 @@ impl Harness {
                     let _ = (b, i);
                 }
                 // ---- C05(b)
-                if self.c.event_idx {
+                if self.c.event_idx && !with(|w| w.cfg.scribble) {
                     let ue = with(|w| w.used_event_mem(q).unwrap_or(0));
                     if ue != self.consumed {
                         violation("used-event-not-rearmed", "pop_used", format!("after consuming {} completions used_event is {ue}", self.consumed));
@@ -666,7 +666,7 @@ impl Harness {
     }
 
     fn check_avail_flags(&mut self) {
-        if !self.c.event_idx {
+        if !self.c.event_idx && !with(|w| w.cfg.scribble) {
             let f = with(|w| w.avail_flags_mem(self.c.qidx).unwrap_or(0xffff));
             let want = if self.dev_notify { 0 } else { 1 };
             if f != want {
